@@ -15,6 +15,12 @@ import (
 // It provides a `bytes` view over the file, along with access to io.Reader streaming access
 // to file data.
 func NewUnixFSFile(ctx context.Context, substrate ipld.Node, lsys *ipld.LinkSystem) (LargeBytesNode, error) {
+	if lbn, ok := substrate.(LargeBytesNode); ok {
+		// already a UnixFS file view: a LinkSystem whose NodeReifier is Reify
+		// hands out reified nodes from Load. Wrapping one as a single-block file
+		// would re-read its whole subtree on every Read.
+		return lbn, nil
+	}
 	if substrate.Kind() == ipld.Kind_Bytes {
 		// A raw / single-node file.
 		return &singleNodeFile{substrate}, nil
